@@ -629,7 +629,7 @@ def main(ck):
                               "add-only hooks coordinator/verif_export_c11.go, verif_export_c11b.go, verif_export_c11c.go, "
                               "lib/util/lifted/influx/meta/verif_export_c11.go"]
     ck.coq_audit(["C11"])
-    ok = ck.coq_build(["C11/Proofs.vo", "C11/ProofsRange.vo", "C11/ProofsBuilders.vo", "C11/Corr.vo"])
+    ok = ck.coq_build(["C11/Proofs.vo", "C11/ProofsRange.vo", "C11/ProofsBuilders.vo", "C11/ProofsSpan.vo", "C11/Corr.vo"])
     if ok:
         ck.coq_props(["C11/Props.v", "C11/Refuted.v"])
     binp = ck.go_build("./cmd/c11", "c11")
